@@ -37,6 +37,7 @@ def impl_case(spec):
     for i, op in enumerate(spec["ops"]):
         if op[0] == "render":
             t.W = op[3]
+            t.rows = op[4]
         toks = tokenize(outs[i + 1], pens)
         for k in toks:
             t.step(k, c06_oracle.width_of)
@@ -131,8 +132,13 @@ def layout_specs(rng, n):
         rw = Window(FormattedTextControl(lambda: [("", state["r"])]), width=rng.randint(1, 6), style=rng.choice(["", "reverse"]))
         bw = Window(BufferControl(buffer=buf), wrap_lines=rng.random() < 0.5)
         body = HSplit([VSplit([lw, rw]), bw, Window(FormattedTextControl(lambda: state["b"]), height=1, style="class:c")])
-        root = FloatContainer(body, floats=[Float(Window(FormattedTextControl(lambda: state["f"]), style="bg:#ff0000"),
-                                                  left=rng.randint(0, 3), top=rng.randint(0, 2))])
+        floats = [Float(Window(FormattedTextControl(lambda: state["f"]), style="bg:#ff0000"),
+                        left=rng.randint(0, 3), top=rng.randint(0, 2))]
+        if rng.random() < 0.35:
+            # a float with explicit top+height reaching below the last terminal row: Screen.height > rows
+            floats.append(Float(Window(FormattedTextControl(lambda: state["f"] or "m"), style="reverse"),
+                                left=rng.randint(0, 2), top=max(0, H - 2), height=rng.randint(3, 5), width=3))
+        root = FloatContainer(body, floats=floats)
         app = Application(layout=Layout(root, focused_element=bw), input=DummyInput(),
                           output=Vt100_Output(io.StringIO(), lambda: Size(rows=H, columns=W), term="xterm"))
         ops = []
@@ -150,7 +156,10 @@ def layout_specs(rng, n):
                 with set_app(app):
                     root.write_to_screen(screen, MouseHandlers(), WritePosition(0, 0, W, H), "", False, None)
                     screen.draw_all_floats()
-            with_watchdog(draw, 5)
+            try:
+                with_watchdog(draw, 20)
+            except Hang:      # a loaded machine, not a verdict: skip this state
+                continue
             rows = {}
             for y, row in screen.data_buffer.items():
                 if 0 <= y < H:
@@ -159,7 +168,7 @@ def layout_specs(rng, n):
             if any(c[0] and get_cwidth(c[0]) == 2 and x == W - 1 for r in rows.values() for x, c in r.items()):
                 continue        # wide character straddling the right edge: outside the property's domain
             cur = screen.cursor_positions.get(bw)
-            scr = {"height": min(screen.height, H), "show_cursor": True,
+            scr = {"height": screen.height, "show_cursor": True,
                    "cursor": (min(cur.x, W - 1), min(cur.y, H - 1)) if cur else (0, 0), "rows": rows, "zwe": {}}
             ops.append(("render", 0, False, W, H, scr))
         if ops:
@@ -320,7 +329,11 @@ def main(tier):
     lspecs = layout_specs(chk.rng, 400 if tier == "thorough" else 60)
     nl = 0
     for spec in lspecs:
-        fails = with_watchdog(lambda: c06_oracle.check_spec(spec), 30)
+        try:
+            fails = with_watchdog(lambda: c06_oracle.check_spec(spec), 60)
+        except Hang:
+            chk.note("real-layout sequence skipped: watchdog (machine load)")
+            continue
         nl += len(spec["ops"])
         chk.coverage["evaluations"] += 1
         if fails:
